@@ -6,8 +6,10 @@ package main
 // checking that fnv still has the shape the model describes.
 
 import (
+	"bytes"
 	"fmt"
 	"go/ast"
+	"go/printer"
 	"go/token"
 	"math/big"
 	"path/filepath"
@@ -42,6 +44,20 @@ func init() {
 			return "", err
 		}
 		b.WriteString("def fnvPrime : Nat := " + prime + "\n\n")
+
+		// Control flow of the hand-modelled functions, as canonical source text (go/printer, comments
+		// stripped). Proofs/C42 states that these are the texts Model/Atom.lean was written from, so any
+		// edit to Lookup/match/String/string/fnv breaks a registered theorem until the model is re-validated.
+		for _, fn := range []struct{ lean, goName string }{
+			{"srcFnv", "fnv"}, {"srcMatch", "match"}, {"srcLookup", "Lookup"},
+			{"srcAtomString", "Atom.String"}, {"srcAtomStringUnchecked", "Atom.string"}, {"srcString", "String"}} {
+			src, err := c42FuncSource(p, fn.goName)
+			if err != nil {
+				return "", err
+			}
+			b.WriteString("def " + fn.lean + " : String := " + strconv.Quote(src) + "\n")
+		}
+		b.WriteString("\n")
 
 		// table
 		tv, err := p.Var("table")
@@ -205,6 +221,28 @@ func init() {
 		b.WriteString("end NetVerif.Gen.C42\n")
 		return b.String(), nil
 	})
+}
+
+// c42FuncSource prints one function without comments in gofmt form.
+func c42FuncSource(p *Pkg, name string) (string, error) {
+	fd, err := p.Func(name)
+	if err != nil {
+		return "", err
+	}
+	cp := *fd
+	cp.Doc = nil
+	var buf bytes.Buffer
+	// printing the bare FuncDecl (not the file) drops all comments inside the body as well
+	if err := printer.Fprint(&buf, token.NewFileSet(), &cp); err != nil {
+		return "", err
+	}
+	out := buf.String()
+	for i := 0; i < len(out); i++ {
+		if out[i] >= 0x7f || (out[i] < 0x20 && out[i] != '\n' && out[i] != '\t') {
+			return "", fmt.Errorf("%s: non-ASCII byte in source text", name)
+		}
+	}
+	return out, nil
 }
 
 // c42FnvPrime checks that func fnv is
